@@ -613,6 +613,90 @@ func TestC03KnownFindings(t *testing.T) {
 	}
 }
 
+// c03Extremes lists formulas over numbers whose exponents lie millions away
+// from zero: the arithmetic operators and every builtin that takes a number
+// (string lengths and dates are left out: the statement bounds pad / repeat
+// lengths, and a date of year 1e99999999 is not a supported value).
+func c03Extremes() []string {
+	nums := []string{"1e-99999999", "-1e-99999999", "1e99999999", "-7e-999999999", "3e999999999", "'1e-99999999'", "(1e-50000000*1e-50000000)", "1e-9999999", "-5e-1000000", "123456789e-99999999", "toFloat('-1e-77777777')"}
+	fns := []string{"abs(%s)", "ceil(%s)", "floor(%s)", "round(%s)", "roundBank(%s)", "roundCash(%s, 2)", "roundCash(2, %s)", "sqrt(%s)", "finite(%s)", "max(%s, 1)", "min(%s, 1)", "toInt(%s)", "toFloat(%s)", "toString(%s)", "%s %% 7", "7 %% %s", "-7 %% %s", "%s %% -7", "%s + 1", "1 - %s", "%s * 3", "3 / %s", "%s / 3", "%s == 1", "%s < 1", "1 > %s", "-%s", "%s %% 1e-5", "%s %% %[1]s", "exp(%s)", "ln(%s)", "log(%s)", "%s & 1", "1 | %s", "%s ? 1 : 2", "'' + %s", "[%s, %[1]s][0]", "ceil(floor(%s) + %[1]s)", "round(%s %% 3)"}
+	var out []string
+	for _, n := range nums {
+		for _, f := range fns {
+			out = append(out, fmt.Sprintf(f, n))
+		}
+	}
+	return out
+}
+
+// TestC03Extremes: the running time of an evaluation must not follow the
+// magnitude of an exponent. A child process evaluates the formulas of
+// c03Extremes (the unchanged tree needs milliseconds for all of them) and is
+// given 60 s; the formula it was working on when the time ran out is reported.
+func TestC03Extremes(t *testing.T) {
+	all := c03Extremes()
+	if os.Getenv("VERIF_CHILD") == "extremes" {
+		for _, f := range all {
+			fmt.Println("EVAL", f)
+			out := obs.EvalText(f, nil)
+			if out.Panic != nil {
+				fmt.Println("PANICKED", f, out.Panic)
+			}
+		}
+		fmt.Println("CHILD-DONE", len(all))
+		return
+	}
+	if i, _ := h.Shard(); i != 0 {
+		return
+	}
+	run := h.Begin("C03", "extremes", "bounded-exhaustive: 39 operators and number builtins x 11 numbers whose exponents lie between 10^6 and 10^9 away from zero (literals, numeric strings, a computed product), evaluated in a child process that is given 60 s for all of them (the unchanged tree needs milliseconds); oracle: every evaluation returns a value or an error - a formula of 17 bytes whose running time follows the magnitude of its exponent does not terminate in any useful sense; every case non-trivial")
+	defer run.End(t)
+	cmd := exec.Command(os.Args[0], "-test.run", "^TestC03Extremes$", "-test.count=1")
+	cmd.Env = append(os.Environ(), "VERIF_CHILD=extremes", "VERIF_OUT=")
+	done := make(chan struct{})
+	var outb []byte
+	go func() { outb, _ = cmd.CombinedOutput(); close(done) }()
+	hung := false
+	select {
+	case <-done:
+	case <-time.After(60 * time.Second):
+		cmd.Process.Kill()
+		<-done
+		hung = true
+	}
+	s := string(outb)
+	last, reached := "", 0
+	for _, line := range strings.Split(s, "\n") {
+		if strings.HasPrefix(line, "EVAL ") {
+			last = strings.TrimPrefix(line, "EVAL ")
+			reached++
+		}
+		if strings.HasPrefix(line, "PANICKED ") {
+			run.Fail("c03", mkEvalCase(strings.Fields(line)[1], map[string]spec.V{}, ""), "evaluation panicked: "+line)
+			return
+		}
+	}
+	for i := 0; i < reached; i++ {
+		run.Count(true, "extreme exponent")
+	}
+	if reached > 0 {
+		run.Sample("extreme exponent", all[0])
+		run.Sample("extreme exponent", all[(len(all)-1)%reached])
+	}
+	switch {
+	case hung && last != "":
+		run.Fail("c03", mkEvalCase(last, map[string]spec.V{}, ""), fmt.Sprintf("evaluation did not return: the child process was still working on it when its 60 s for %d formulas (milliseconds on the unchanged tree) ran out - the running time follows the magnitude of the exponent, not the length of the formula", len(all)))
+	case hung:
+		run.Note("child process produced no output within 60 s (machine overloaded?): inconclusive")
+	case !strings.Contains(s, "CHILD-DONE"):
+		if last != "" && (strings.Contains(s, "fatal error") || strings.Contains(s, "panic:")) {
+			run.Fail("c03", mkEvalCase(last, map[string]spec.V{}, ""), "the child process died while evaluating it: "+s[max(0, len(s)-300):])
+			return
+		}
+		run.Note("child process ended unexpectedly: " + s[max(0, len(s)-300):])
+	}
+}
+
 // TestC03Shapes: long operator chains and deep nestings must still terminate.
 func TestC03Shapes(t *testing.T) {
 	run := h.Begin("C03", "shapes", "bounded-exhaustive: for every binary operator a chain of 40 and of 400 operands over each of {1, 0, null, 's', i, m.a} ('1 && 1 && ...'), right-nested and left-nested parenthesised forms, ?: ladders, prefix-operator towers, nested calls / arrays / member chains of depth 200, long comma and chained-assignment sequences; oracle: (value,nil) or (nil,error) under a 30 s watchdog (an evaluation whose cost doubles per operand does not return); every case non-trivial")
